@@ -22,6 +22,8 @@ SEEDS = {
     'C07-cbor-indefinite-text-buffer-clear': ('C07', 'cbor_strings'), 'C14-remove-signed-index': ('C14', 'jsonpointer'),
     'C13-sort-by-unstable': ('C13', 'jmespath_sort'),
     'C18-toon-is-number-exponent-plus': ('C18', 'toon_number'),
+    'C06-cbor-bignum-head-24': ('C06', 'cbor_head'), 'C04-bigint-add-carry-ripple': ('C04', 'bigint_add'), 'C05-mdarray-size-div-by-zero': ('C05', 'mdarray_size'),
+    'C01-begin-array-depth-off-by-one': ('C01', 'json_depth'), 'C12-gte-string-operator': ('C12', 'jsonpath_ops'),
     'C03-fals-cursor-mode': ('C03', 'json_literals'), 'C04-grisu-boundary-shift': ('C04', 'grisu'), 'C10-source-reader-claimed-length': ('C10', 'source_reader'),
 }
 only = sys.argv[1:]
